@@ -570,7 +570,13 @@ def check_case(case):
     plain_list = _has_pl(node)
     # 1. construct + encode
     try:
-        obj = cls(value)
+        if case.get("after") is not None and node is not None:
+            # the function object held ANOTHER conforming value first and is then given this one: what it encodes and reports
+            # is a function of the value it holds now
+            obj = cls(py_input(fn.shape, case["after"], items))
+            obj.set(value)
+        else:
+            obj = cls(value)
     except Exception as exc:
         if plain_list and isinstance(exc, TypeError):
             return Failure(KNOWN_PLAIN_LIST, case, _exc(exc), "plain list accepted by an item whose first type is Array")
@@ -1023,6 +1029,7 @@ def run_task(name, kw, ctx):
             return
         # deterministic sweep
         seen = set()
+        prev = None
         for label, case in sweep_cases(fn, items, ctx.seed, thorough):
             if ctx.out_of_time():
                 return
@@ -1030,6 +1037,15 @@ def run_task(name, kw, ctx):
                 alt_pairs_in(fn.shape, case["v"], items, seen)
             _record(ctx, fn, case, items, ["sweep"])
             ctx.report(check_case(case))
+            if case["v"] is not None and prev is not None and not _has_pl(case["v"]) and not _has_pl(prev):
+                rc = dict(case, after=prev)
+                conform(fn.shape, prev, items)
+                ctx.case(rc, True, [f"fn:{fn.name}", "reuse:set-after-another-value"], key=chash({"sf": rc["sf"], "v": rc["v"], "after": prev}))
+                f = check_case(rc)
+                if f is not None:
+                    f = Failure("reuse:" + f.bucket.split(":S")[0], rc, f.observed, f.expected)
+                ctx.report(f)
+            prev = case["v"]
         if fn.shape is None:
             continue
         missing = alt_pairs_required(fn, items) - seen
